@@ -99,7 +99,7 @@ class Sym:
                 if e[0] == "call" and e[1] in ("Try::ok", ) and pr[1] == 0:
                     continue
                 tag = getattr(self, "_tag_field", None)
-                if tag is not None and e[0] == "param" and e[1] == tag[0] and pr[2] == tag[1] and getattr(self, "_pos", None) is not None:
+                if tag is not None and ((e[0] == "param" and e[1] == tag[0]) or (p[0] == tag[0] and pr is p[1][0])) and pr[2] == tag[1] and getattr(self, "_pos", None) is not None:
                     e = ("fieldat", pr[2], self._pos)      # position-tagged read (field_exit_value_seq)
                     continue
                 e = ("field", e, pr[2])
@@ -592,7 +592,12 @@ class Sym:
         entry = ("field", ("param", self_local, fn.local_name(self_local) or "self"), field)
 
         def is_field_place(p):
-            return (not isinstance(p, int)) and p[0] == self_local and len(p[1]) == 2 and p[1][0][0] == "*" and p[1][1][0] == "." and p[1][1][2] == field
+            if isinstance(p, int) or p[0] != self_local:
+                return False
+            pr = p[1]
+            if len(pr) == 2 and pr[0][0] == "*" and pr[1][0] == "." and pr[1][2] == field:
+                return True
+            return len(pr) == 1 and pr[0][0] == "." and pr[0][2] == field      # a local struct (not behind a reference)
         for b in fn.blocks:
             if b.cleanup:
                 continue
